@@ -9,18 +9,19 @@ import (
 )
 
 // Value representations
-//   bool, integers           *Term (Bool / BV of the type's width)
-//   float32/64, complex      float64 (concrete only)
-//   string                   Str
-//   pointer                  *Value (nil pointer = (*Value)(nil))
-//   struct                   Struct
-//   array                    Array
-//   slice                    Slice
-//   map                      *Map
-//   interface                Iface
-//   func                     *Closure
-//   tuple                    Tuple
-//   chan                     *Chan (unsupported beyond nil)
+//
+//	bool, integers           *Term (Bool / BV of the type's width)
+//	float32/64, complex      float64 (concrete only)
+//	string                   Str
+//	pointer                  *Value (nil pointer = (*Value)(nil))
+//	struct                   Struct
+//	array                    Array
+//	slice                    Slice
+//	map                      *Map
+//	interface                Iface
+//	func                     *Closure
+//	tuple                    Tuple
+//	chan                     *Chan (unsupported beyond nil)
 type Value = any
 
 type Struct []Value
